@@ -1773,3 +1773,94 @@ RULES = {
     "LABEL-OMIT": label_omit,
     "PREORDER-STATE": preorder_state,
 }
+
+
+# ---------------------------------------------------------------------------
+# ANCHOR-SET
+
+
+def anchor_set(prog: Program) -> RuleResult:
+    res = RuleResult(
+        "ANCHOR-SET",
+        "anchor bookkeeping of _compute_branches: every handler (leaf, speciation, duplication, transfer) registers "
+        "the node it creates among the anchors of its species, unconditionally; the only nodes ever taken out of "
+        "that set are children that the handler has just brought into the SAME species (results of _add_losses with "
+        "the end `<species>.up`) - removing anything else, or not registering a node, leaves a drawn branch that "
+        "refers to an anchor which does not exist",
+    )
+    mod = prog.module(LAYOUT)
+    fn = prog.func(LAYOUT, "_compute_branches")
+    sp = _species_loop_var(fn)
+    gene_var = None
+    for node in ast.walk(fn):
+        if isinstance(node, ast.For) and isinstance(node.target, ast.Name) and node.target.id != sp and isinstance(node.iter, ast.Call) and isinstance(node.iter.func, ast.Attribute) and node.iter.func.attr == "traverse":
+            if any(isinstance(x, ast.Dict) for st in node.body for x in ast.walk(st)):
+                gene_var = node.target.id
+    events = _event_names(fn)
+    chains = [c for c in _kind_chains(fn) if c[0] in events or "node_event" in c[0]]
+    if sp is None or gene_var is None or len(chains) != 1:
+        raise AnalysisError("ANCHOR-SET: species loop / gene loop / event dispatch of _compute_branches not recognised")
+    _subj, first_if, arms, _else = chains[0]
+    blocks: List[Tuple[str, List[ast.stmt], ast.AST]] = [("+".join(sorted(k)), body, n) for k, body, n in arms]
+    # the leaf handler: the is_leaf() arm that encloses / precedes the dispatch
+    leaf_if = None
+    for node in ast.walk(fn):
+        if isinstance(node, ast.If) and isinstance(node.test, ast.Call) and isinstance(node.test.func, ast.Attribute) and node.test.func.attr == "is_leaf" and dotted(node.test.func.value) == gene_var:
+            if any(n is first_if for st in node.orelse for n in ast.walk(st)):
+                leaf_if = node
+    if leaf_if is None:
+        raise AnalysisError("ANCHOR-SET: leaf handler of _compute_branches not recognised")
+    blocks.insert(0, ("LEAF", leaf_if.body, leaf_if))
+
+    def anchor_calls(body, meth):
+        out = []
+        for st in body:
+            for c in ast.walk(st):
+                if isinstance(c, ast.Call) and isinstance(c.func, ast.Attribute) and c.func.attr in meth and isinstance(c.func.value, ast.Subscript) and isinstance(c.func.value.slice, ast.Constant) and c.func.value.slice.value == "anchor_nodes":
+                    out.append(c)
+        return out
+
+    for kind, body, node in blocks:
+        construct = f"{LAYOUT}:_compute_branches/{kind}/anchor-registered"
+        adds = anchor_calls(body, ("add",))
+        mine = [c for c in adds if c.args and dotted(c.args[0]) == gene_var]
+        cond = [c for c in mine if any(True for g, _p in guards(fn, c) if any(n is g for st in body for n in ast.walk(st)))]
+        if not mine:
+            res.fail(construct, f"the {kind} handler never adds `{gene_var}` to the anchors of its species: the parent's branch will refer to an anchor that does not exist", mod, node)
+        elif cond:
+            res.fail(construct, f"the {kind} handler registers `{gene_var}` only under a condition", mod, cond[0])
+        else:
+            res.ok(construct, f"`{gene_var}` registered")
+        foreign = [c for c in adds if c not in mine]
+        if foreign:
+            res.fail(f"{LAYOUT}:_compute_branches/{kind}/anchor-foreign", f"`{short(foreign[0])}` registers something else than the node being handled", mod, foreign[0])
+        # removals
+        same_species = set()
+        other = set()
+        for st in body:
+            for a in ast.walk(st):
+                if isinstance(a, ast.Assign) and isinstance(a.value, ast.Call) and (dotted(a.value.func) or "").endswith("_add_losses") and len(a.value.args) >= 4:
+                    end = a.value.args[3]
+                    names = {t.id for t in a.targets if isinstance(t, ast.Name)}
+                    if isinstance(end, ast.Attribute) and end.attr == "up" and dotted(end.value) == sp:
+                        same_species |= names
+                    else:
+                        other |= names
+        rems = anchor_calls(body, ("remove", "discard"))
+        construct = f"{LAYOUT}:_compute_branches/{kind}/anchor-removed"
+        bad = [c for c in rems if not (c.args and dotted(c.args[0]) in same_species)]
+        if bad:
+            what = dotted(bad[0].args[0]) if bad[0].args else "?"
+            res.fail(
+                construct,
+                f"the {kind} handler removes `{what}` from the anchors of `{sp}`, but `{what}` is not a child it has just brought into that species "
+                f"(brought: {sorted(same_species) or 'none'}): the node lives in another species (KeyError) or loses the anchor its parent links to",
+                mod,
+                bad[0],
+            )
+        else:
+            res.ok(construct, f"removes {sorted(dotted(c.args[0]) for c in rems) or 'nothing'}; children brought into the species: {sorted(same_species) or 'none'}")
+    return res
+
+
+RULES["ANCHOR-SET"] = anchor_set
